@@ -149,6 +149,7 @@ func runC17(e *Env) error {
 	c17Down(e, pool, viol, &mu)
 	c17Graphs(e, viol, &mu)
 	c17PGQualified(e, viol, &mu)
+	c17MyColumns(e, viol, &mu)
 	return nil
 }
 
